@@ -9,6 +9,12 @@ pub const ASCII_INITIAL: &str = "abcdefghijklmnopqrstuvwxyzABCDEFGHIJKLMNOPQRSTU
 pub const ASCII_SUBSEQ_EXTRA: &str = "0123456789+-.@";
 /// Representative non-ASCII code points shared with spec/Text.tla (DESIGN.md Appendix B):
 /// alphabetic ones may start an identifier.
+/// Characters that are special to a text format although they are not ASCII (the Unicode line and paragraph
+/// separators, NEL, the byte order mark, soft hyphen, directional marks), and characters whose code point, cut down
+/// to its low byte, is a character the string syntax treats specially (`"` `\\` `(` `)` `;` and the controls).
+pub const TRUNCATION_SPECIAL: &[char] = &['\u{85}', '\u{2028}', '\u{2029}', '\u{FEFF}', '\u{AD}', '\u{200B}', '\u{200E}', '\u{2066}',
+    '\u{2022}', '\u{015C}', '\u{0107}', '\u{201C}', '\u{0122}', '\u{0128}', '\u{0129}', '\u{013B}', '\u{0100}', '\u{010A}', '\u{017F}', '\u{0185}',
+    '\u{1F622}', '\u{1005C}', '\u{E0028}'];
 pub const NONASCII_ALPHA: &[char] = &['é', 'λ', 'ж', '中', '\u{1D49C}'];
 /// non-ASCII, not alphabetic (only as subsequent characters)
 pub const NONASCII_OTHER: &[char] = &['→', '€', '\u{0301}', '٣'];
@@ -99,6 +105,7 @@ impl Gen {
             },
             8 => char::from_u32(self.rng.gen_range(0x10000..0x110000)).unwrap(),
             9 => *self.pick(&['\u{D7FF}', '\u{E000}', '\u{FFFD}', '\u{FFFF}', '\u{10000}', '\u{10FFFF}', '\u{7FF}', '\u{800}', '\u{80}', '\u{FF}']),
+            10 => *self.pick(TRUNCATION_SPECIAL),
             _ => loop {
                 if let Some(c) = char::from_u32(self.rng.gen_range(0..0x110000)) {
                     break c;
@@ -345,6 +352,15 @@ pub fn wide_values() -> Vec<Value> {
 
 pub fn probe_values() -> Vec<Value> {
     let mut out = probe_values_base();
+    for c in TRUNCATION_SPECIAL {
+        out.push(Value::string(format!("a{}b", c)));
+        out.push(Value::Char(*c));
+    }
+    out.push(Value::string(TRUNCATION_SPECIAL.iter().collect::<String>()));
+    // byte vectors longer than any buffer a printer might batch octets in
+    out.push(Value::bytes((0..=255u8).collect::<Vec<u8>>()));
+    out.push(Value::bytes(vec![7u8; 150]));
+    out.push(Value::bytes((0..90u8).map(|i| 100 + i).collect::<Vec<u8>>()));
     for s in ["\u{7f}", "a\u{7f}b", "\u{7f}\u{3bb}", "plain", "\u{80}\u{9f}"] {
         out.push(Value::string(s));
         out.push(Value::symbol(s.replace('\u{7f}', "x").replace('\u{80}', "y").replace('\u{9f}', "z")));
